@@ -558,7 +558,9 @@ type decodeFn struct {
 
 var decodeFns = []decodeFn{
 	{"DecodeBool", "ReadBool", []string{"true", "false"}},
-	{"DecodeFloat64", "ReadFloat64", []string{"4607182418800017408", "13830554455654793216"}},
+	// targets: 1.0, a negative value, +0, -0 and a NaN (a store skipped because the old and the new value compare equal, or
+	// never equal, is only visible bitwise)
+	{"DecodeFloat64", "ReadFloat64", []string{"4607182418800017408", "13830554455654793216", "0", "9223372036854775808", "9221120237041090561"}},
 	{"DecodeInt64", "ReadInt64", []string{"-77", "9223372036854775807"}},
 	{"DecodeInt32", "ReadInt32", []string{"-77", "2147483647"}},
 	{"DecodeInt", "ReadInt", []string{"-77", "1"}},
@@ -572,7 +574,8 @@ func init() {
 	suites["C12"] = func(c *Ctx) (string, error) {
 		g := c.gen()
 		var pool [][]byte
-		for _, s := range []string{"null", " null", "\tnull ", "nullx", "null,", "nul", "nu", "n", "Null", "nulll", "-null", "tnull", "1e999null", "null1", " \n null]", "", " ", "x", "4294967296", "18446744073709551616", "-9223372036854775809", "2147483648", "1e999", `"abc`, `"aé"`, "tru", "truenull", "1.5", "1.", "-", "99999999999999999999"} {
+		for _, s := range []string{"null", " null", "\tnull ", "nullx", "null,", "nul", "nu", "n", "Null", "nulll", "-null", "tnull", "1e999null", "null1", " \n null]", "", " ", "x", "4294967296", "18446744073709551616", "-9223372036854775809", "2147483648", "1e999", `"abc`, `"aé"`, "tru", "truenull", "1.5", "1.", "-", "99999999999999999999",
+			"0", "-0", "0.0", "-0.0", " -0", "-0e7", "0e-3", "-0.000e+1", "0.0e3 ", "1", "-1", "false", "true", `""`, `"sent"`} {
 			pool = append(pool, []byte(s))
 		}
 		for i := 0; i < c.scale(1500, 15000); i++ {
